@@ -47,6 +47,23 @@ func (s resendState) FixMsgIn(session *session, msg *Message) (nextState session
 		return
 	}
 
+	// Deliver every kept message that is now next in sequence. A message of the requested range may have
+	// been kept too, if it arrived ahead of its predecessor.
+	for len(s.messageStash) > 0 {
+		targetSeqNum := session.store.NextTargetMsgSeqNum()
+		msg, ok := s.messageStash[targetSeqNum]
+		if !ok {
+			break
+		}
+
+		delete(s.messageStash, targetSeqNum)
+
+		nextState = inSession{}.FixMsgIn(session, msg)
+		if !nextState.IsLoggedOn() {
+			return
+		}
+	}
+
 	// Request the next chunk only while part of the gap is still missing.
 	if s.currentResendRangeEnd != 0 && s.currentResendRangeEnd < session.store.NextTargetMsgSeqNum() &&
 		session.store.NextTargetMsgSeqNum() <= s.resendRangeEnd {
@@ -72,23 +89,6 @@ func (s resendState) FixMsgIn(session *session, msg *Message) (nextState session
 		}
 		nextResendState.messageStash = s.messageStash
 		return nextResendState
-	}
-
-	// Deliver every kept message that is now next in sequence. A message of the requested range may have
-	// been kept too, if it arrived ahead of its predecessor.
-	for len(s.messageStash) > 0 {
-		targetSeqNum := session.store.NextTargetMsgSeqNum()
-		msg, ok := s.messageStash[targetSeqNum]
-		if !ok {
-			break
-		}
-
-		delete(s.messageStash, targetSeqNum)
-
-		nextState = inSession{}.FixMsgIn(session, msg)
-		if !nextState.IsLoggedOn() {
-			return
-		}
 	}
 
 	if s.resendRangeEnd >= session.store.NextTargetMsgSeqNum() {
